@@ -31,7 +31,13 @@ class SpecErrC(JsonRpcError):
     message = 'spec error c'
 
 
+class SpecAbstract(JsonRpcError):
+    """an application's abstract error base: no code, never documented as an error of its own"""
+
+
 ERRORS = {'A': SpecErrA, 'B': SpecErrB, 'C': SpecErrC}
+# names a docstring may mention in :raises: although they are no documentable errors (abstract bases, unknown names)
+RAISES_NAMES = {'A': 'SpecErrA', 'B': 'SpecErrB', 'C': 'SpecErrC', 'abstract': 'SpecAbstract', 'client': 'ClientError', 'unknown': 'NoSuchError'}
 
 
 class Colour(enum.Enum):
@@ -92,7 +98,7 @@ def method_source(m: Dict[str, Any], as_view: bool) -> str:
                 d.append('    :returns: the result')
             d.append(f"    :rtype: {m.get('ret') or 'object'}")
         for e in doc.get('raises', []):
-            d.append(f'    :raises {ERRORS[e].__name__}: when {e}')
+            d.append(f'    :raises {RAISES_NAMES[e]}: when {e}')
         if doc.get('deprecated'):
             d.append('')
             d.append('    .. deprecated:: 1.0')
@@ -105,14 +111,29 @@ def method_source(m: Dict[str, Any], as_view: bool) -> str:
 
 def build_methods(specs: List[Dict[str, Any]], shared: Dict[str, Any]):
     """-> (list of pjrpc Method objects in order, dict fname -> function, user objects to fingerprint)"""
-    ns = dict(NS, ViewMixin=pjrpc.server.ViewMixin, __name__='vmon_spec_programs')
+    # a real (importable) module: introspection helpers that look a class up through sys.modules find it
+    import sys
+    import types
+    mod = types.ModuleType('vmon_spec_programs')
+    mod.__dict__.update(NS, ViewMixin=pjrpc.server.ViewMixin)
+    sys.modules['vmon_spec_programs'] = mod
+    ns = mod.__dict__
     methods, funcs = [], {}
     import re
     for n_spec, m in enumerate(specs):
         m = dict(m)
         m.setdefault('fname', re.sub(r'\W', '_', m['name']) + ('' if re.fullmatch(r'[\w.]+', m['name']) else f'_{n_spec}'))
         if m.get('view'):
-            src = 'class V_%s(ViewMixin):\n    def __init__(self, context=None):\n        super().__init__()\n' % m['fname']
+            src = ''
+            base = 'ViewMixin'
+            if not m.get('doc') and not shared.get('no_documented_base'):
+                # the view overrides a DOCUMENTED method of its base without documenting the override: nothing of the base's
+                # documentation belongs to this method
+                base_m = dict(m, doc={'summary': 'Base summary Xq9base', 'long': 'Base description Xq9base.', 'params': True, 'returns': True,
+                                      'raises': ['C'], 'deprecated': True})
+                src += 'class B_%s(ViewMixin):\n' % m['fname'] + '\n'.join('    ' + l for l in method_source(base_m, True).splitlines()) + '\n\n'
+                base = 'B_%s' % m['fname']
+            src += 'class V_%s(%s):\n    def __init__(self, context=None):\n        super().__init__()\n' % (m['fname'], base)
             src += '\n'.join('    ' + l for l in method_source(m, True).splitlines())
             exec(compile(src, '<vmon_spec_programs>', 'exec', dont_inherit=True), ns)
             view_cls = ns['V_' + m['fname']]
